@@ -172,6 +172,8 @@ def check(run):
                 if len(run.samples) < 2 and flag and passed >= 1:
                     run.sample({'program': G.lines, 'present_keys': S, 'loaded_task_keys': got_keys, 'barrier_flag': flag, 'markers_executed': marks})
         deep_and_reload_family(run, scratch)
+        many_phases_family(run, scratch)
+        own_store_family(run, scratch)
         # real concurrent processes
         process_family(run, rng, scratch, 2 if quick else 12)
         if drv is not None and run.corr_disagreements == 0:
@@ -273,8 +275,116 @@ def deep_and_reload_family(run, scratch):
                      'load by the same process (same store object) the barrier is still open' % depth, rp)
 
 
+PHASES = '''from jug import TaskGenerator, bvalue
+@TaskGenerator
+def step(x):
+    return x + 1
+x = 0
+for _i in range(%(phases)d):
+    x = bvalue(step(x))
+final = step(x)
+'''
+
+
+def many_phases_family(run, scratch, cases=((12, 3, 1), (9, 2, 2), (170, None, 1))):
+    """more barrier phases than --nr-wait-cycles (explicit small values and the default): as long as a worker makes progress it keeps
+    reloading; `phases` iterations of x = bvalue(step(x)), run by 1 or 2 real `jug execute` processes"""
+    for phases, cycles, nproc in cases:
+        d = os.path.join(scratch, 'phases%d-%s-%d' % (phases, cycles, nproc))
+        os.makedirs(d)
+        open(os.path.join(d, 'jugfile.py'), 'w').write(PHASES % {'phases': phases})
+        args = ['execute', 'jugfile.py', '--will-cite', '--wait-cycle-time', '0'] + (['--nr-wait-cycles', str(cycles)] if cycles is not None else [])
+        if nproc > 1:
+            # the other workers may give up early when idle; at least one of them is never idle for long
+            args[args.index('--wait-cycle-time') + 1] = '1'
+        ps = [L.jug_cli_popen(args, d) for _ in range(nproc)]
+        outs = [p.communicate(timeout=240)[0] for p in ps]
+        rcs = [p.returncode for p in ps]
+        chk = L.jug_cli(['check', 'jugfile.py', '--will-cite'], d)
+        rp = {'kind': 'many-phases', 'phases': phases, 'nr_wait_cycles': cycles, 'processes': nproc}
+        run.case(('many-phases', phases, cycles, nproc), nontrivial=True)
+        run.count('many_phase_runs')
+        from jug.backends.file_store import file_store
+        s_ = file_store(os.path.join(d, 'jugfile.jugdata'))
+        nres = len(list(s_.list()))
+        if any(rcs):
+            run.fail('phases-execute-fails', '%d phases of x = bvalue(step(x)), %d `jug execute` process(es) with --nr-wait-cycles %s: exit statuses %s: %s' % (phases, nproc, cycles, rcs, outs[0][-300:]), rp)
+        elif chk.returncode != 0 or nres != phases + 1:
+            run.fail('phases-left-unfinished', '%d phases of x = bvalue(step(x)), %d `jug execute` process(es) with --nr-wait-cycles %s: every process exited 0, but only %d of the %d results exist and '
+                     '`jug check` exits %d: the reload loop stopped although each pass made progress' % (phases, nproc, cycles or 'default', nres, phases + 1, chk.returncode), rp)
+        core.rm_rf(d)
+
+
+OWNSTORE = '''import os
+import jug
+from jug import TaskGenerator, bvalue, barrier, value
+jug.set_jugdir(os.environ.get('JUGVERIF_RESULTS', 'pipeline.jugdata'))
+@TaskGenerator
+def nr_parts():
+    return 3
+@TaskGenerator
+def work(i):
+    return i * i
+@TaskGenerator
+def total(vs):
+    return sum(vs)
+n = bvalue(nr_parts())
+parts = [work(i) for i in range(n)]
+barrier()
+t = total(value(parts))
+'''
+
+
+def own_store_family(run, scratch):
+    """a jugfile that selects its results location itself (jug.set_jugdir) while the location named by --jugdir / the default one holds an older
+    complete run: barrier(), bvalue() and `jug check` must all look at the location in use"""
+    d = os.path.join(scratch, 'ownstore')
+    os.makedirs(d)
+    open(os.path.join(d, 'pipeline.py'), 'w').write(OWNSTORE)
+    common = ['--will-cite', '--nr-wait-cycles', '2', '--wait-cycle-time', '0']
+    old = L.jug_cli(['execute', 'pipeline.py'] + common, d)
+    chk_old = L.jug_cli(['check', 'pipeline.py', '--will-cite'], d)
+    rp = {'kind': 'own-store'}
+    run.case(('own-store',), nontrivial=True)
+    run.count('own_store_histories')
+    if old.returncode != 0 or chk_old.returncode != 0:
+        run.fail('own-store-first-run', 'first run (default location): execute exits %d, check exits %d: %s' % (old.returncode, chk_old.returncode, old.stdout[-300:]), rp)
+        return
+    env = {'JUGVERIF_RESULTS': os.path.join(d, 'run2.jugdata')}
+    steps = [('nothing computed in the new location (bvalue closed)', None), ('nr_parts computed (bvalue open, barrier() closed)', ['execute', 'pipeline.py', '--target', 'nr_parts'] + common)]
+    for label, cmd in steps:
+        if cmd is not None:
+            L.jug_cli(cmd, d, env_extra=env)
+        chk = L.jug_cli(['check', 'pipeline.py', '--will-cite'], d, env_extra=env)
+        if chk.returncode == 0:
+            run.fail('check-early', 'jugfile with jug.set_jugdir(<new location>), older complete run in the default location; %s: `jug check` exits 0 (all done) while a barrier is closed' % label, dict(rp, step=label))
+            return
+    ex = L.jug_cli(['execute', 'pipeline.py'] + common, d, env_extra=env)
+    chk = L.jug_cli(['check', 'pipeline.py', '--will-cite'], d, env_extra=env)
+    from jug.backends.file_store import file_store
+    n2 = len(list(file_store(env['JUGVERIF_RESULTS']).list()))
+    if ex.returncode != 0 or chk.returncode != 0 or n2 != 5:
+        run.fail('own-store-incomplete', 'jugfile with jug.set_jugdir(<new location>): execute exits %d, check exits %d, %d of 5 results in the new location: %s' % (ex.returncode, chk.returncode, n2, ex.stdout[-300:]), rp)
+    core.rm_rf(d)
+
+
 def replay(path):
     d0 = json.load(open(path)) if True else None
+    if d0 and d0.get('replay', {}).get('kind') == 'own-store':
+        print(d0['what'])
+        sc = core.scratch_dir()
+        try:
+            return core.replay_family('C14', d0['key'], lambda run_: own_store_family(run_, sc))
+        finally:
+            core.rm_rf(sc)
+    if d0 and d0.get('replay', {}).get('kind') == 'many-phases':
+        print(d0['what'])
+        sc = core.scratch_dir()
+        r_ = d0['replay']
+        try:
+            return core.replay_family('C14', d0['key'], lambda run_: many_phases_family(run_, sc, ((r_['phases'], r_['nr_wait_cycles'], r_['processes']),)))
+        finally:
+            core.rm_rf(sc)
     if d0 and d0.get('replay', {}).get('kind') == 'deep-barrier':
         print(d0['what'])
         sc = core.scratch_dir()
